@@ -58,6 +58,12 @@ func checkC08(an *Analysis, add func(Violation)) {
 			if f.Note == "injected" || strings.Contains(f.Err, "cannot assign requested address") {
 				notMine = true // the call could not get a socket at all (an address the host does not have): it never asked
 			}
+			if f.Err == "address already in use" && len(an.Sc.Foreign) > 0 {
+				notMine = true // another process holds the port
+			}
+			if strings.Contains(f.Err, "connection refused") {
+				notMine = true // nobody accepts connections there (a controller listed at an address that is not one)
+			}
 		}
 		if notMine {
 			continue
